@@ -80,7 +80,12 @@ NameChecks(r) ==
   IN IF ~p.ok THEN << <<"rejected", r.exc_direct \in {"ValueError", "AssertionError"}>> >>
      ELSE << <<"pipeline", r.pipeline = p>>,
              <<"accepted", r.exc_direct = "" /\ r.exc_composed = "">>,
-             <<"identical", r.d_direct = r.d_composed>> >>
+             \* bit-identical wherever every step of the name is a public primitive (both sides then run the same code); the
+             \* scaled-GEV steering vector Phi_nn w_gev is a private helper of the wrapper that the composition re-implements:
+             \* there the two results are compared as numbers (any arrangement of that product is the same composition)
+             <<"identical", IF p.pre = "atf_scaled_gev" /\ r.d_direct # r.d_composed
+                            THEN HasKey(r, "wd") /\ Len(r.wd) = Len(r.wc) /\ \A f \in 1..Len(r.wd) : ZIsVec(r.wd[f]) /\ ZIsVec(r.wc[f]) /\ VecClose(r.wd[f], r.wc[f], 8)
+                            ELSE r.d_direct = r.d_composed>> >>
 \* apply_beamforming_vector: out[t] = sum_d conj(w_d) x[d][t]
 ApplyChecks(r) ==
   IF r.exc # "" THEN << <<"raises", FALSE>> >>
